@@ -83,12 +83,24 @@
 //@}
 //@start{
     let ghost s0 = state_id;
+    let ghost mut fmoves: nat = 0;   // C13: fail moves made so far by this call
     proof { lemma_root_live_cw(self.states@, self.mapper.table@, false); }
 //@}
 //@loop 1{
     invariant cw_wf(self.states@, self.mapper.table@, false), cw_live(self.states@, false, state_id as int),
-              cw_goto(self.states@, self.mapper.table@, state_id as int, mapped_c) == cw_goto(self.states@, self.mapper.table@, s0 as int, mapped_c)
+              cw_goto(self.states@, self.mapper.table@, state_id as int, mapped_c) == cw_goto(self.states@, self.mapper.table@, s0 as int, mapped_c),
+              fmoves + cw_fsteps(self.states@, self.mapper.table@, state_id as int, mapped_c) == cw_fsteps(self.states@, self.mapper.table@, s0 as int, mapped_c),
     decreases cw_rank(self.states@, false, state_id as int)
+//@}
+//@before 1 return state_id;{
+    // the loop made exactly cw_fsteps fail moves (lemma_cw_moves_from_root: at most 2n transitions over n characters)
+    proof { assert(fmoves == cw_fsteps(self.states@, self.mapper.table@, s0 as int, mapped_c)); }
+//@}
+//@before 1 return ROOT_STATE_IDX;{
+    proof { assert(fmoves == cw_fsteps(self.states@, self.mapper.table@, s0 as int, mapped_c)); }
+//@}
+//@before 1 state_id = (&self.states{
+    proof { fmoves = fmoves + 1; }
 //@}
 //@fn next_state_id_leftmost_unchecked
 //@pre{
